@@ -645,6 +645,19 @@ static Token *subst(Token *tok, MacroArg *args) {
   return head.next;
 }
 
+// The first token of a macro expansion takes the place of the macro
+// token. If the expansion is empty, `tok` is the token that follows the
+// macro invocation: it keeps its own position in the line (it may start
+// a directive) and only gains the white space of the macro token.
+static void inherit_flags(Token *tok, Token *macro_token, bool is_empty) {
+  if (is_empty) {
+    tok->has_space = tok->has_space || macro_token->has_space;
+    return;
+  }
+  tok->at_bol = macro_token->at_bol;
+  tok->has_space = macro_token->has_space;
+}
+
 // If tok is a macro, expand it and return true.
 // Otherwise, do nothing and return false.
 static bool expand_macro(Token **rest, Token *tok) {
@@ -669,8 +682,7 @@ static bool expand_macro(Token **rest, Token *tok) {
     for (Token *t = body; t->kind != TK_EOF; t = t->next)
       t->origin = tok;
     *rest = append(body, tok->next);
-    (*rest)->at_bol = tok->at_bol;
-    (*rest)->has_space = tok->has_space;
+    inherit_flags(*rest, tok, body->kind == TK_EOF);
     return true;
   }
 
@@ -697,8 +709,7 @@ static bool expand_macro(Token **rest, Token *tok) {
   for (Token *t = body; t->kind != TK_EOF; t = t->next)
     t->origin = macro_token;
   *rest = append(body, tok->next);
-  (*rest)->at_bol = macro_token->at_bol;
-  (*rest)->has_space = macro_token->has_space;
+  inherit_flags(*rest, macro_token, body->kind == TK_EOF);
   return true;
 }
 
